@@ -487,6 +487,13 @@ pub fn gen_case(r: &mut Rng, out: &mut String) {
         if !quiet && r.chance(4, 5) {
             writeln!(out, "size_hint {}", name).unwrap();
         }
+        // every observer of the state just reached, not only size_hint: a clone consumed through one of the
+        // overridden whole-iterator methods (fold / rfold / count) or step by step from either end
+        if !quiet && r.chance(1, 3) {
+            writeln!(out, "iclone {} i9", name).unwrap();
+            let op = *r.pick(&["count", "fold", "rfold", "fold", "rfold", "drain_fwd", "drain_rev"]);
+            writeln!(out, "{} i9", op).unwrap();
+        }
     }
     // ---- calls after exhaustion on one cursor (fused), then drain everything
     for k in 0..curs.len() {
@@ -622,14 +629,21 @@ pub fn gen_window_case(r: &mut Rng, out: &mut String) {
     for t in t0..=t1 {
         let tv = base + t;
         writeln!(out, "iclone i0 i1").unwrap();
+        // the state reached by the seek is looked at by every observer in turn (one whole-iterator observer per
+        // target, on a clone of its own): size_hint, then fold / rfold / count, then the single steps
+        let obs = ["fold", "rfold", "count", "drain_rev", "drain_fwd"][((t + key) % 5) as usize];
         if fwd {
             writeln!(out, "advance_to i1 {}", tv).unwrap();
             writeln!(out, "size_hint i1").unwrap();
+            writeln!(out, "iclone i1 i2").unwrap();
+            writeln!(out, "{} i2", obs).unwrap();
             writeln!(out, "next i1").unwrap();
             writeln!(out, "next_back i1").unwrap();
         } else {
             writeln!(out, "advance_back_to i1 {}", tv).unwrap();
             writeln!(out, "size_hint i1").unwrap();
+            writeln!(out, "iclone i1 i2").unwrap();
+            writeln!(out, "{} i2", obs).unwrap();
             writeln!(out, "next_back i1").unwrap();
             writeln!(out, "next i1").unwrap();
         }
